@@ -61,5 +61,8 @@ var FuzzTargets = func() []TypeDesc {
 		// 23..26: implementers and corpus structs behind 1..3 pointers, as the top-level value and as fields
 		fptr(fptr(fnm("Msg"))), fptr(fptr(fptr(fnm("Custom16")))), fptr(fnm("RawMessage")),
 		fst(fk(KInt), fptr(fnm("RawMessage")), fptr(fptr(fnm("Msg"))), fptr(fptr(fptr(fnm("Tree")))), fptr(fnm("CustomS")), fsl(fptr(fnm("Msg")))),
+		// 27..28: implementers that also carry the ProtoMessage() marker (MsgPM: Message codec; CustomSPM: plain reflection struct)
+		fst(fk(KInt), fnm("MsgPM"), fptr(fnm("MsgPM")), fsl(fnm("MsgPM")), fmp(fk(KString), fnm("MsgPM")), fnm("CustomSPM"), fsl(fptr(fnm("CustomSPM"))), fk(KString)),
+		fnm("MsgPM"),
 	}
 }()
